@@ -84,6 +84,11 @@ func (server *SugarDB) Flush(database int) {
 	server.keysWithExpiry.rwMutex.Lock()
 	defer server.keysWithExpiry.rwMutex.Unlock()
 
+	// A database that has never been written to has no store and no caches yet.
+	if database != -1 && server.store[database] == nil {
+		return
+	}
+
 	if database == -1 {
 		for db, _ := range server.store {
 			// Clear db store.
